@@ -411,7 +411,14 @@ def execute(sc, out):
             for n in ATTRS:
                 record_access(ri, n, vals[n])
         if plan_snap is not None:
-            check_plan(an.plan(), "end of history")
+            try:
+                check_plan(an.plan(), "end of history")
+            except Exception as e:
+                from dsim.sched import HarnessError
+
+                if isinstance(e, HarnessError):
+                    raise
+                out.violate("exception", "op=plan", f"plan() at the end of the history raised {type(e).__name__}: {str(e)[:200]} (it succeeded earlier on this analyzer)")
     sess.absorb(out)
     out.sim_time_s += clock.elapsed()
     for k, v in clock.fired.items():
